@@ -30,8 +30,16 @@ class Decl(object):
 def declare(ops):
     d = Decl()
     default_currency = {}
+    made = set()          # handles that exist when an op is issued (an op on a missing handle is a no-op)
     for op in ops:
         name = op['op']
+        _id = op.get('id')
+        if _id is not None:
+            made_now = _id
+        else:
+            made_now = None
+        if name == 'SetGoldPurchases' and op.get('gold') not in made:
+            continue
         if name == 'Model':
             d.models[op['id']] = {'countries': [], 'external': None}
             default_currency[op['id']] = 'LOCAL'
@@ -116,6 +124,8 @@ def declare(ops):
             d.ics.append(op)
         elif name == 'AddGlobalEquation':
             d.globals.append(op)
+        if made_now is not None:
+            made.add(made_now)
     return d
 
 
